@@ -1,7 +1,8 @@
 import AvroModel.Theorems.C04
+import AvroModel.Theorems.C04fuel
 import AvroModel.Theorems.C11full
 import AvroModel.Theorems.C12full
-import AvroModel.Theorems.C18
+import AvroModel.Theorems.C18full
 import AvroModel.Impl.DecimalLib
 /-
 Non-vacuity audit, area B: C04 (deserializer totality / bounds), C11 (slice vs reader back-end),
@@ -12,7 +13,7 @@ input, with every hypothesis discharged (`decide +kernel` on closed terms), or r
 (sections "FINDING" / "REMARK").  Function parameters are instantiated with the REAL model
 functions (`de deExtModel …`, `ser …`), the states are the ones `Driver/Main.lean` builds
 (`{ rest := bs }` / `{ rest := bs, isSlice := false, lastChunk, sched, maxAlloc }`), the fuel is
-the driver's formula (`driverFuel`, copied from `deOne`).
+the driver's (`driverFuel` = the real `Avro.Impl.deFuel` that `deOne` uses).
 
 Running example: a schema built through `freezeNodes`, recursive through a union
 (`record ns.Node { value: timestamp-micros, next: [null, Node], tags: array<uuid> }`), a typed
@@ -20,19 +21,22 @@ target, valid bytes, non-canonical layouts and hostile bytes (a block count of 2
 length of 2^40).
 
 Summary of what was found (no theorem of the area is vacuous):
-  * C04: all hypotheses are met by `freezeNodes` output and by the driver's fuel under the
-    default limits; the driver's fuel formula does not dominate `fuelBound` for EVERY schema /
-    hint (`driver_fuel_insufficient`: the model run by the driver runs out of fuel on a valid
-    input for a 760-field record with `max_seq_size = 0`) — a limitation of the driver's formula,
-    not of the theorems (`driver_fuel_default`, `driver_fuel_general` give sufficient conditions).
+  * C04: all hypotheses are met by `freezeNodes` output and by the driver's fuel
+    (`Avro.Impl.deFuel ≥ fuelBound` for EVERY schema / hint / limits: `fuelBound_le_deFuel`,
+    `Theorems/C04fuel.lean`).  The historical formula of the driver (`deFuelBase`) did not
+    dominate `fuelBound` (`driver_fuel_base_insufficient`: with it the model ran out of fuel on a
+    valid input for a 760-field record with `max_seq_size = 0`); `driver_fuel_sufficient` is the
+    same instance at the driver's present fuel: `Ok`.
   * C11: `Sim` holds between the driver's initial states (`driver_sim`); `halloc` asks the whole
     remaining input to fit `max_alloc` (sufficient, not necessary); the container theorem starts
     from an empty buffer (`fillBuf_buffered_eq_scheduled` explains why that is harmless); it uses
     the real `de` and does not assume `DatumOk`.
   * C12: instances on canonical and non-canonical layouts, incl. the unit-variant theorem (which
     had none); the struct-subset theorems only cover listed fields of hint `.any`.
-  * C18: `C18_write_read_slice` is `C18_accepts_slice` under another name: it does not mention
-    the writer; the end-to-end statement is proved here on the example only.
+  * C18: `C18_write_read_slice` was `C18_accepts_slice` under another name (it did not mention
+    the writer) and has been REPLACED by `C18_write_read` (Theorems/C18full.lean: `toSingleObject`
+    with the real `ser`, then `fromSingleObject` with the real `de`), instantiated here with every
+    hypothesis discharged (`cyc_write_read`).
 -/
 namespace Avro.Theorems.NVB
 open Avro Avro.Impl Avro.Theorems
@@ -152,9 +156,11 @@ theorem resEqP_of {x y : Except DeErr (List (Out × Out)) × RState}
     (h : resEqbG oeqP x y = true) : x = y :=
   resEqG_of oeqP_sound h
 
-/-- the fuel `Driver/Main.lean` (`deOne`, `runSingle`, `runOcfRead`) gives the datum deserializer -/
-def driverFuel (cfg : DeConfig) (S : Schema) (depth len : Nat) : Nat :=
-  (depth + 4) * (cfg.maxSeqSize + 8 * S.size + 64) + 16 * len + 4096
+/-- the fuel `Driver/Main.lean` (`deOne`, `runSingle`, `runOcfRead`) gives the datum deserializer:
+    the REAL definition `Avro.Impl.deFuel` (`Lemmas/DriverFuel.lean`); the hint (last, default
+    `.any`) is the hint of the call of `de` -/
+abbrev driverFuel (cfg : DeConfig) (S : Schema) (depth len : Nat) (hint : Hint := .any) : Nat :=
+  deFuel cfg S hint depth len
 
 /-! ## 1. The running example: a cyclic schema built through `freezeNodes` -/
 
@@ -195,44 +201,41 @@ def hostileLen : Bytes := [0x00, 0x00, 0x02, 0x80, 0x80, 0x80, 0x80, 0x80, 0x40,
 
 /-! ## 2. C04 -/
 
-/-- the driver's fuel dominates `fuelBound` for this schema / target with the DEFAULT limits
-    (`max_seq_size = 10^9`, depth 64), whatever the input length -/
-theorem cyc_fuel (h : Hint) (hh : h.size ≤ 1000) (len : Nat) :
-    fuelBound {} cycS h 64 ≤ driverFuel {} cycS 64 len := by
-  have h1 : maxFields cycS = 3 := by decide +kernel
-  have h2 : cycS.size = 6 := by decide +kernel
-  simp only [fuelBound, levelCost, driverFuel, h1, h2]
-  show 64 * (1000000000 + 3 + 4) + 2 * h.size + 2 ≤ (64 + 4) * (1000000000 + 8 * 6 + 64) + 16 * len + 4096
-  omega
+/-- the driver's fuel dominates `fuelBound`, whatever the target and the input length
+    (`fuelBound_le_deFuel`; with the historical formula this needed the default limits and a bound
+    on the size of the target) -/
+theorem cyc_fuel (h : Hint) (len : Nat) :
+    fuelBound {} cycS h 64 ≤ driverFuel {} cycS 64 len h :=
+  fuelBound_le_deFuel {} cycS h 64 len
 
 theorem cycHint_size : cycHint.size ≤ 1000 := by decide +kernel
 
 /-- **C04_no_panic_root / C04_ok_or_err**: cyclic frozen schema, typed target, default limits, the
     driver's fuel, EVERY state (slice or reader, any schedule, any `Take`). -/
 example (s : RState) :
-    (de deExtModel {} cycS (driverFuel {} cycS 64 s.rest.length) cycRoot 64 false cycHint s).1
+    (de deExtModel {} cycS (driverFuel {} cycS 64 s.rest.length cycHint) cycRoot 64 false cycHint s).1
       ≠ .error .panic :=
   C04_no_panic_root deExtModel {} cycS cycS_keys _ 0 cycRoot cycRoot_get 64 false cycHint
-    (cyc_fuel _ cycHint_size _) s
+    (cyc_fuel _ _) s
 
 example (s : RState) :
-    (∃ o, (de deExtModel {} cycS (driverFuel {} cycS 64 s.rest.length) cycRoot 64 false .ignored s).1 = .ok o) ∨
-    (de deExtModel {} cycS (driverFuel {} cycS 64 s.rest.length) cycRoot 64 false .ignored s).1 = .error .custom ∨
-    (de deExtModel {} cycS (driverFuel {} cycS 64 s.rest.length) cycRoot 64 false .ignored s).1 = .error .io :=
+    (∃ o, (de deExtModel {} cycS (driverFuel {} cycS 64 s.rest.length .ignored) cycRoot 64 false .ignored s).1 = .ok o) ∨
+    (de deExtModel {} cycS (driverFuel {} cycS 64 s.rest.length .ignored) cycRoot 64 false .ignored s).1 = .error .custom ∨
+    (de deExtModel {} cycS (driverFuel {} cycS 64 s.rest.length .ignored) cycRoot 64 false .ignored s).1 = .error .io :=
   C04_ok_or_err deExtModel {} cycS cycS_keys _ 0 cycRoot cycRoot_get 64 false .ignored
-    (cyc_fuel _ (by decide) _) s
+    (cyc_fuel _ _) s
 
 /-- what actually happens on the hostile inputs (slice; reader fed one byte at a time, cap 1000) -/
 example :
-    de deExtModel {} cycS (driverFuel {} cycS 64 hostile.length) cycRoot 64 false cycHint
+    de deExtModel {} cycS (driverFuel {} cycS 64 hostile.length cycHint) cycRoot 64 false cycHint
       { rest := hostile } = (.error .custom, { rest := [0x41] }) :=
   resEq_of (by decide +kernel)
 
 example :
-    (de deExtModel {} cycS (driverFuel {} cycS 64 hostileLen.length) cycRoot 64 false cycHint
+    (de deExtModel {} cycS (driverFuel {} cycS 64 hostileLen.length cycHint) cycRoot 64 false cycHint
       { rest := hostileLen, isSlice := false, lastChunk := 1, sched := [], maxAlloc := 1000 }).1
       = .error .custom ∧
-    (de deExtModel {} cycS (driverFuel {} cycS 64 hostileLen.length) cycRoot 64 false cycHint
+    (de deExtModel {} cycS (driverFuel {} cycS 64 hostileLen.length cycHint) cycRoot 64 false cycHint
       { rest := hostileLen }).1 = .error .custom := by
   constructor
   · exact fstEq_of (by decide +kernel)
@@ -241,16 +244,16 @@ example :
 /-- **C04_fuel_independent_root / C04_fuel_sufficient** with the DEFAULT `DeConfig`
     (`maxSeqSize = 10^9`): the hypothesis is only `fuelBound ≤ fuel`, met by the driver's fuel. -/
 example (len : Nat) :
-    de deExtModel {} cycS (driverFuel {} cycS 64 len) cycRoot 64 false cycHint
+    de deExtModel {} cycS (driverFuel {} cycS 64 len cycHint) cycRoot 64 false cycHint
       = de deExtModel {} cycS (fuelBound {} cycS cycHint 64) cycRoot 64 false cycHint :=
   C04_fuel_independent_root deExtModel {} cycS _ 0 cycRoot cycRoot_get 64 false cycHint
-    (cyc_fuel _ cycHint_size len)
+    (cyc_fuel _ len)
 
 example (len : Nat) :
-    de deExtModel {} cycS (driverFuel {} cycS 64 len) cycRoot 64 false cycHint
-      = de deExtModel {} cycS (driverFuel {} cycS 64 len + 1) cycRoot 64 false cycHint :=
+    de deExtModel {} cycS (driverFuel {} cycS 64 len cycHint) cycRoot 64 false cycHint
+      = de deExtModel {} cycS (driverFuel {} cycS 64 len cycHint + 1) cycRoot 64 false cycHint :=
   C04_fuel_sufficient deExtModel {} cycS _ cycRoot 64 false cycHint
-    (nodeFields_le cycRoot_get) (cyc_fuel _ cycHint_size len)
+    (nodeFields_le cycRoot_get) (cyc_fuel _ len)
 
 /-- **C04_rest_suffix** on the hostile input, reader back-end -/
 example : ∃ consumed, hostile = consumed ++
@@ -362,35 +365,49 @@ example :
        { rest := [], isSlice := false, lastChunk := 1, maxAlloc := 1000, scratch := 5 }) :=
   resEq_of (by decide +kernel)
 
-/-! ### FINDING (driver, not theorem): the driver's fuel formula vs `fuelBound`
+/-! ### FINDING (driver, not theorem; REPAIRED): the driver's fuel vs `fuelBound`
 
-`fuelBound cfg S h depth = depth * (maxSeqSize + maxFields S + 4) + 2 * h.size + 2`, the driver
-gives `(depth + 4) * (maxSeqSize + 8 * S.size + 64) + 16 * len + 4096`.  `maxFields S` (longest
-field list) and `h.size` are not bounded by `S.size`, so the driver's fuel does NOT dominate the
+`fuelBound cfg S h depth = depth * (maxSeqSize + maxFields S + 4) + 2 * h.size + 2`; the driver
+used to give `deFuelBase cfg S depth len
+  = (depth + 4) * (maxSeqSize + 8 * S.size + 64) + 16 * len + 4096`.  `maxFields S` (longest
+field list) and `h.size` are not bounded by `S.size`, so that formula does NOT dominate the
 bound for every schema / hint.  With the DEFAULT limits the slack is `4 * 10^9`, enough for every
 schema and target of realistic size (`driver_fuel_default`); with a small `max_seq_size` (the `de`
-command passes it from the case) a record with a few hundred fields is enough to make the model
-run out of fuel under the driver's formula (`driver_fuel_insufficient`) — the run is then reported
-as `panic`, although the bound of C04 gives `Ok`. -/
+command passes it from the case) a record with a few hundred fields was enough to make the model
+run out of fuel (`driver_fuel_base_insufficient`) — the run was then reported as `panic`,
+although the bound of C04 gives `Ok`.  The driver now passes
+`deFuel cfg S h depth len = max (deFuelBase cfg S depth len) (fuelBound cfg S h depth)`
+(`Lemmas/DriverFuel.lean`), which dominates the bound unconditionally (`driver_fuel_ge`), and the
+same instance is answered `Ok` (`driver_fuel_sufficient`). -/
 
+/-- unconditional: the driver's fuel is inside the fuel range of every C04 theorem -/
+theorem driver_fuel_ge (cfg : DeConfig) (S : Schema) (h : Hint) (depth len : Nat) :
+    fuelBound cfg S h depth ≤ driverFuel cfg S depth len h :=
+  fuelBound_le_deFuel cfg S h depth len
+
+/-- when the historical component alone is enough: default limits -/
 theorem driver_fuel_default (S : Schema) (h : Hint) (len : Nat)
     (hsmall : 64 * maxFields S + 2 * h.size ≤ 4000000000) :
-    fuelBound {} S h 64 ≤ driverFuel {} S 64 len := by
-  simp only [fuelBound, levelCost, driverFuel]
+    fuelBound {} S h 64 ≤ deFuelBase {} S 64 len := by
+  simp only [fuelBound, levelCost, deFuelBase]
   show 64 * (1000000000 + maxFields S + 4) + 2 * h.size + 2
     ≤ (64 + 4) * (1000000000 + 8 * S.size + 64) + 16 * len + 4096
   omega
 
-/-- for ANY limits and depth: the driver's fuel dominates the bound as soon as no record is wider
-    than `8 * S.size + 60` fields and the target has at most `2047 + 2 * max_seq_size` nodes -/
+/-- for ANY limits and depth: the historical component dominates the bound as soon as no record
+    is wider than `8 * S.size + 60` fields and the target has at most `2047 + 2 * max_seq_size`
+    nodes; then `deFuel` IS the historical formula -/
 theorem driver_fuel_general (cfg : DeConfig) (S : Schema) (h : Hint) (depth len : Nat)
     (hw : maxFields S ≤ 8 * S.size + 60) (hh : 2 * h.size ≤ 4094 + 4 * cfg.maxSeqSize) :
-    fuelBound cfg S h depth ≤ driverFuel cfg S depth len := by
-  simp only [fuelBound, levelCost, driverFuel]
-  have h1 : depth * (cfg.maxSeqSize + maxFields S + 4) ≤ depth * (cfg.maxSeqSize + 8 * S.size + 64) :=
-    Nat.mul_le_mul_left _ (by omega)
-  rw [Nat.add_mul]
-  omega
+    fuelBound cfg S h depth ≤ deFuelBase cfg S depth len ∧
+    driverFuel cfg S depth len h = deFuelBase cfg S depth len := by
+  have key : fuelBound cfg S h depth ≤ deFuelBase cfg S depth len := by
+    simp only [fuelBound, levelCost, deFuelBase]
+    have h1 : depth * (cfg.maxSeqSize + maxFields S + 4) ≤ depth * (cfg.maxSeqSize + 8 * S.size + 64) :=
+      Nat.mul_le_mul_left _ (by omega)
+    rw [Nat.add_mul]
+    omega
+  exact ⟨key, Nat.max_eq_left key⟩
 
 def nmWide : Name := { fq := "W", short := "W", ns := none }
 /-- `0: record W { f × 760: null, next: [null, W] }`, `1: [null, W]`, `2: null` -/
@@ -402,13 +419,32 @@ def wideBytes : Bytes := List.replicate 7 0x02 ++ [0x00]
 
 theorem wideS_keys : wideS.keysInBounds = true := by decide +kernel
 
-theorem driver_fuel_insufficient :
-    driverFuel cfg0 wideS 16 wideBytes.length < fuelBound cfg0 wideS .ignored 16 ∧
-    (de deExtModel cfg0 wideS (driverFuel cfg0 wideS 16 wideBytes.length) wideRoot 16 false .ignored
-      { rest := wideBytes }).1 = .error .panic ∧
-    de deExtModel cfg0 wideS (fuelBound cfg0 wideS .ignored 16) wideRoot 16 false .ignored
-      { rest := wideBytes } = (.ok .unit, { rest := [] }) :=
-  ⟨by decide +kernel, fstEq_of (by decide +kernel), resEq_of (by decide +kernel)⟩
+/-- the historical formula on this instance: below the bound, and the model runs out of fuel -/
+theorem driver_fuel_base_insufficient :
+    deFuelBase cfg0 wideS 16 wideBytes.length < fuelBound cfg0 wideS .ignored 16 ∧
+    (de deExtModel cfg0 wideS (deFuelBase cfg0 wideS 16 wideBytes.length) wideRoot 16 false .ignored
+      { rest := wideBytes }).1 = .error .panic :=
+  ⟨by decide +kernel, fstEq_of (by decide +kernel)⟩
+
+/-- the positive counterpart (formerly `driver_fuel_insufficient`): on the same instance the
+    driver's fuel is `≥ fuelBound` (here: equal to it) and `de` at that fuel returns `Ok` -/
+theorem driver_fuel_sufficient :
+    fuelBound cfg0 wideS .ignored 16 ≤ driverFuel cfg0 wideS 16 wideBytes.length .ignored ∧
+    driverFuel cfg0 wideS 16 wideBytes.length .ignored = 12244 ∧
+    de deExtModel cfg0 wideS (driverFuel cfg0 wideS 16 wideBytes.length .ignored) wideRoot 16 false
+      .ignored { rest := wideBytes } = (.ok .unit, { rest := [] }) :=
+  ⟨driver_fuel_ge _ _ _ _ _, by decide +kernel, resEq_of (by decide +kernel)⟩
+
+/-- the same through the general theorem: no evaluation of `de` at the driver's fuel needed -/
+example : de deExtModel cfg0 wideS (driverFuel cfg0 wideS 16 wideBytes.length .ignored) wideRoot 16
+    false .ignored = de deExtModel cfg0 wideS (fuelBound cfg0 wideS .ignored 16) wideRoot 16 false
+    .ignored :=
+  C04_deFuel_eq_fuelBound deExtModel cfg0 wideS 0 wideRoot rfl 16 false .ignored _
+
+example (s : RState) :
+    (de deExtModel cfg0 wideS (driverFuel cfg0 wideS 16 s.rest.length .ignored) wideRoot 16 false
+      .ignored s).1 ≠ .error .panic :=
+  C04_no_panic_at_deFuel deExtModel cfg0 wideS wideS_keys 0 wideRoot rfl 16 false .ignored _ s
 
 /-! ## 3. C11 -/
 
@@ -782,11 +818,11 @@ example : de deExtModel {} cycS (fuelBound {} cycS .ignored 64) cycRoot 64 false
     { rest := v3Layout ++ [0x2a] } { rest := [0x2a] } v3Out rfl rfl rfl v3_read
     ⟨20, by rw [v3_decX]; rfl⟩ (Nat.le_refl _)
 
-example : de deExtModel {} cycS (driverFuel {} cycS 64 13) cycRoot 64 false .ignored
+example : de deExtModel {} cycS (driverFuel {} cycS 64 13 .ignored) cycRoot 64 false .ignored
       { rest := v3Layout ++ [0x2a] } = (.ok .unit, { rest := [0x2a] }) :=
   C12_skip_follows_read {} cycS cycS_keys 0 cycRoot cycRoot_get 64 100 _
     { rest := v3Layout ++ [0x2a] } { rest := [0x2a] } v3Out rfl rfl rfl v3_read
-    ⟨20, by rw [v3_decX]; rfl⟩ (cyc_fuel _ (by decide) _)
+    ⟨20, by rw [v3_decX]; rfl⟩ (cyc_fuel _ _)
 
 /-- **C12_struct_subset_all_layouts**: a struct that lists `value` only; `next` and the two-block
     array `tags` are skipped (the first block jumped over by its byte size) -/
@@ -897,22 +933,70 @@ theorem cyc_write : toSingleObject cycFp (ser extNone false cycS cycRoot sv1) {}
 def cycDatum (st : RState) : Except DeErr Out × RState :=
   de deExtModel {} cycS (driverFuel {} cycS 64 st.rest.length) cycRoot 64 false .any st
 
-/-- **C18_write_read_slice / C18_accepts_slice** with the real `de` as the datum parameter (the
-    theorem puts no condition on it) on the message the real `ser` wrote -/
-example : fromSingleObject cycFp cycDatum { rest := cycMsg } = cycDatum { rest := cycBytes } :=
-  C18_write_read_slice cycFp cycBytes rfl cycDatum { rest := cycMsg } rfl rfl
-
+/-- **C18_accepts_slice** with the real `de` as the datum parameter (the theorem puts no condition
+    on it) on the message the real `ser` wrote -/
 example : fromSingleObject cycFp cycDatum { rest := cycMsg } = cycDatum { rest := cycBytes } :=
   C18_accepts_slice cycFp cycDatum { rest := cycMsg } rfl cycBytes rfl rfl
 
-/-- end to end (what `C18_write_read_slice` does NOT state by itself, see the report): the bytes
-    produced by `toSingleObject ∘ ser` are read back by `fromSingleObject ∘ de` as the value -/
-example :
-    fromSingleObject cycFp cycDatum
-      { rest := (toSingleObject cycFp (ser extNone false cycS cycRoot sv1) {}).2.out }
-      = (.ok cycOut, { rest := [] }) := by
-  rw [cyc_write]
-  exact resEq_of (by decide +kernel)
+/-- the value `sv1` denotes, its canonical encoding and its observation -/
+def cycV : Spec.Value :=
+  .record [.long 1, .union 1 (.record [.long 2, .union 0 .null, .array []]), .array [.string "a"]]
+theorem cycV_encode : Spec.encode cycS cycRoot cycV = some cycBytes := by decide +kernel
+theorem cycV_observe : Spec.observe cycS cycRoot cycV = some cycOut := by rw [cycS_eq]; rfl
+
+theorem extNone_ok : ExtOK extNone :=
+  ⟨fun _ _ h => h, fun _ _ h => by simp [extNone] at h, fun _ _ h => by simp [extNone] at h⟩
+
+/-- **C18_write_read** (write then read, the real `ser` and the real `de`), every hypothesis
+    discharged on the cyclic schema: whatever follows the message, and with any fuel above
+    `4 * size + 8`, the slice reader returns the observation of the value `sv1` denotes and leaves
+    what followed. -/
+theorem cyc_write_read (rest : Bytes) (fuel : Nat) (hfuel : 4 * Spec.size cycV + 8 ≤ fuel) :
+    fromSingleObject cycFp (de deExtModel {} cycS fuel cycRoot 64 false .any)
+      { rest := (toSingleObject cycFp (ser extNone false cycS cycRoot sv1) {}).2.out ++ rest } =
+        (.ok cycOut, { rest := rest }) := by
+  obtain ⟨s', bytes, v, hrun, hout, henc, hden, hrd⟩ :=
+    C18_write_read {} extNone false cycS cycRoot sv1 cycFp rfl {} (by rw [cyc_write])
+      C01glue.good_empty
+      (SchemaOK.of_checks (by decide +kernel) (by decide +kernel) (by decide +kernel)
+        (by decide +kernel))
+      (NodeOK.of_check (by decide +kernel)) (by decide +kernel) extNone_ok (by decide +kernel)
+      (fun _ n _ => Canon.nodeAllows_strict n) (Canon.nodeAllows_strict _)
+      (fun k n hk => Array.all_getElem? (by decide +kernel : cycS.all Node.fixedDecFits = true) hk)
+      (by decide +kernel)
+  rw [hrun]
+  rw [cyc_write] at hrun
+  have hs' : s'.out = cycMsg := by
+    have := congrArg (fun p => p.2.out) hrun
+    exact this.symm
+  have hb : bytes = cycBytes := by
+    rw [hs'] at hout
+    simp only [cycMsg] at hout
+    have : ([0xC3, 0x01] ++ cycFp : Bytes) ++ cycBytes = ([0xC3, 0x01] ++ cycFp) ++ bytes := by
+      simpa [List.append_assoc] using hout
+    exact (List.append_cancel_left this).symm
+  subst hb
+  have hv : v = cycV := encode_injective henc cycV_encode
+  subst hv
+  have := hrd {} 64 cycOut cycV_observe (by decide +kernel) (by decide +kernel) fuel
+    (by omega)
+    rest { rest := s'.out ++ rest } rfl rfl rfl (by rw [hout]; simp [List.append_assoc])
+  simpa using this
+
+/-- … in particular with the datum deserializer as `runSingle` of the driver instantiates it (its
+    fuel is computed from what follows the header) -/
+example (rest : Bytes) :
+    fromSingleObject cycFp cycDatum { rest := cycMsg ++ rest } = (.ok cycOut, { rest := rest }) := by
+  have hsz : Spec.size cycV ≤ 100 := by decide +kernel
+  have h := cyc_write_read rest (driverFuel {} cycS 64 (cycBytes ++ rest).length)
+    (Nat.le_trans (by simp only [deFuelBase]; omega)
+      (deFuelBase_le_deFuel {} cycS .any 64 (cycBytes ++ rest).length))
+  rw [cyc_write] at h
+  have hsplit : ({ rest := cycMsg ++ rest } : RState).rest = [0xC3, 0x01] ++ cycFp ++ (cycBytes ++ rest) := by
+    simp [cycMsg, List.append_assoc]
+  rw [C18_accepts_slice cycFp _ { rest := cycMsg ++ rest } rfl (cycBytes ++ rest) rfl hsplit] at h
+  rw [C18_accepts_slice cycFp cycDatum { rest := cycMsg ++ rest } rfl (cycBytes ++ rest) rfl hsplit]
+  exact h
 
 /-- **C18_fingerprint_err_slice**: the same message read under a schema with another
     fingerprint (here: the canonical form with the field `tags` renamed) -/
